@@ -269,6 +269,8 @@ func initTopicP2P(t *Topic, sreg *ClientComMessage) error {
 		}
 		t.lastID = stopic.SeqId
 		t.delID = stopic.DelId
+		// Topic of a suspended user stays read-only after a reload.
+		t.markReadOnly(stopic.State == types.StateSuspended)
 	}
 
 	// t.owner is blank for p2p topics
@@ -667,6 +669,8 @@ func initTopicGrp(t *Topic) error {
 	}
 	t.lastID = stopic.SeqId
 	t.delID = stopic.DelId
+	// Topic of a suspended owner stays read-only after a reload.
+	t.markReadOnly(stopic.State == types.StateSuspended)
 
 	// Initialize channel for receiving session online updates.
 	t.supd = make(chan *sessionUpdate, 32)
